@@ -10,7 +10,9 @@
 // Beyond single presentations: part R (rotation.go) follows one remote key set across a key rotation, part F
 // (faults.go) across histories of rotations and failing JWKS downloads; the JWT-profile verifier is also used as a kept
 // object that has verified another client's assertion before; the RP verifier is also taken from a relying party built
-// by rp.NewRelyingPartyOIDC (allow-list by verifier option or from the discovery document).
+// by rp.NewRelyingPartyOIDC (allow-list by verifier option or from the discovery document). Every JWKS document the
+// harness serves may also list entries no verifier can use for a signature (noise.go); part O (overlap.go) uses ONE
+// verifier object of every kind for two overlapping calls, the first parked at each of its yield points in turn.
 package main
 
 import (
@@ -24,6 +26,7 @@ import (
 	"verif/internal/ev"
 	"verif/internal/keys"
 	"verif/internal/mon"
+	"verif/internal/sched"
 )
 
 const opsPerCase = 5
@@ -70,6 +73,11 @@ func legalFor(c *caseCtx, v int, kid, alg string, signer crypto.PublicKey) (lega
 		for _, e := range c.S {
 			if samePub(e.K.Public(), signer) {
 				return false, "", "kid-mismatch"
+			}
+		}
+		for _, e := range c.peerS {
+			if samePub(e.K.Public(), signer) {
+				return false, "", "key-of-the-client-of-the-other-call-on-the-same-object"
 			}
 		}
 		for _, e := range c.otherS {
@@ -233,6 +241,25 @@ func runCase(run *ev.Run, w *worker, v int, i int, onlyOp string) {
 		}
 		skipRemote = r.IntN(4) == 0 && c.route == "direct" // rp.SkipRemoteCheck cannot be handed to a relying party
 		cacheMode += "/" + c.route
+		// document dimension (own stream, so the other dimensions of a case are what they were without it): entries
+		// no verifier can use, anywhere among the published keys of the served and / or the cached document
+		if nr := run.CaseRand(uint64(40+v), i); nr.IntN(3) == 0 {
+			c.noise = genNoise(nr, len(c.S), kidsOf(c.S))
+			if len(c.S) >= 2 && nr.IntN(3) == 0 {
+				c.noise[0].Before = 1 + nr.IntN(len(c.S)-1) // one of them between two usable entries
+			}
+			if c.cached != nil {
+				switch nr.IntN(3) {
+				case 0:
+					c.cachedNoise = genNoise(nr, len(c.cached), kidsOf(c.cached))
+				case 1:
+					if strings.HasPrefix(cacheMode, "warm-same") {
+						c.cachedNoise = c.noise
+					}
+				}
+			}
+			cacheMode += "/unusable-entries=" + noisePlacement(len(c.S), c.noise)
+		}
 	}
 	marker := fmt.Sprintf("m%d-%d", v, i)
 	now := time.Now()
@@ -461,6 +488,14 @@ func runCase(run *ev.Run, w *worker, v int, i int, onlyOp string) {
 				wit["cached_key_set"] = describeSet(c.cached)
 				wit["skip_remote_check"] = skipRemote
 			}
+			if len(c.noise) > 0 || len(c.cachedNoise) > 0 {
+				wit["jwks_document_served"] = string(jwksBody(c.S, c.noise))
+				wit["unusable_entries_of_the_served_document"] = c.noise
+				wit["note_on_key_set"] = "key_set lists the usable entries of the served document in document order; the unusable entries (no signature algorithm has a use for them) stand where jwks_document_served shows them"
+				if c.cached != nil {
+					wit["jwks_document_cached"] = string(jwksBody(c.cached, c.cachedNoise))
+				}
+			}
 			if pr.Bound != nil {
 				wit["bound_signature"] = map[string]any{"signer": keyName(pr.Bound.Key), "alg": pr.Bound.Alg, "kid_declared": pr.EffKid, "payload": string(pr.Bound.Payload)}
 			}
@@ -500,6 +535,10 @@ func runCase(run *ev.Run, w *worker, v int, i int, onlyOp string) {
 					if c.route != "" && c.route != "direct" {
 						key += ":" + c.route
 					}
+					if len(c.noise) > 0 {
+						key += ":jwks-with-unusable-entries"
+						extra += " (the served JWKS document also lists entries no verifier can use: " + noiseKindsOf(c.noise) + ")"
+					}
 					run.Violation(key, caseID,
 						"an untouched genuinely signed token with a unique eligible published key and an allowed algorithm was rejected"+extra+": "+err2str(out.err), witness())
 				} else {
@@ -531,6 +570,9 @@ func runCase(run *ev.Run, w *worker, v int, i int, onlyOp string) {
 					}
 					if ec == "ErrSignatureInvalid(ErrKeyMultiple)" && kid == "" {
 						run.Observed("ambiguity-reported:" + vname)
+						if noiseBetweenCandidates(c.S, c.noise, alg) {
+							run.Observed("jwks-unusable-entries:ambiguity-reported-with-one-between-the-candidates")
+						}
 					}
 				}
 			} else {
@@ -557,6 +599,10 @@ func runCase(run *ev.Run, w *worker, v int, i int, onlyOp string) {
 
 		// ---- accepted: provenance ----
 		fail := func(class, what string) {
+			if len(c.noise) > 0 || len(c.cachedNoise) > 0 {
+				class += ":jwks-with-unusable-entries"
+				what += " (the JWKS document also lists entries no verifier can use: " + noiseKindsOf(append(append([]placedNoise{}, c.noise...), c.cachedNoise...)) + ")"
+			}
 			run.Violation("C02:"+vname+":accepted:"+class, caseID, what, witness())
 		}
 		if pr.Bound == nil {
@@ -627,6 +673,17 @@ func runCase(run *ev.Run, w *worker, v int, i int, onlyOp string) {
 			}
 			if c.pred != "" {
 				run.Observed("kept-verifier:accept-genuine-after-earlier-issuer:" + c.vlife)
+			}
+			if len(c.noise) > 0 {
+				for _, n := range c.noise {
+					run.Observed("jwks-unusable-entries:kind:" + n.Kind)
+					run.Count("unusable-jwks-entry:rp-remote", n.Kind+" -> genuine token of a usable key accepted")
+				}
+				for ei, e := range c.S {
+					if samePub(e.K.Public(), signer.Public()) && usableAfterNoise(c.noise, ei) {
+						run.Observed("jwks-unusable-entries:genuine-of-a-key-listed-after-one-accepted")
+					}
+				}
 			}
 			if v == vAssertion {
 				run.Count("subject-dimension:"+vname, subjectDim(c, v)+" kid="+c.kidMode+" -> accepted")
@@ -757,6 +814,12 @@ func main() {
 		"rp-remote additionally varies where the verifier comes from (rp.NewIDTokenVerifier / the ID token verifier of rp.NewRelyingPartyOIDC with rp.WithVerifierOpts / with rp.WithSigningAlgsFromDiscovery against a discovery document announcing exactly the allow-list); " +
 		"part F: 1000 (thorough 30000) histories over ONE remote key set and verifier (direct, SkipRemoteCheck, relying party): publish / rotate (6 modes) / the JWKS endpoint fails for the next 1-2 downloads in one of 7 ways / recovers, " +
 		"interleaved with 9-16 presentations of tokens by currently published, stored, withdrawn, never published and foreign keys, each judged against the exact record of what every download returned; " +
+		"every served JWKS document (rp-remote sweep 1 case in 3, part R 1 in 3, part F 1 document in 4, part O rp-remote 1 in 4) may also list 1-3 entries no verifier can use for a signature " +
+		"(12 kinds: X25519 / X448 key-agreement keys, unknown kty, RSA with damaged or missing members, EC on an unsupported curve or with a point off the curve, kty missing, string / null / number instead of an object, a symmetric key), " +
+		"before, between and after the usable keys, with a key ID of their own, none, or one a usable key carries; " +
+		"part O: 1800 (thorough 36000) cases, 300 per verifier: ONE verifier object (kept *op.JWTProfileVerifier; one storage for request objects; one provider or one kept access-token / id_token_hint verifier object; one *rp.IDTokenVerifier over a static / a remote key set, cold or warm, with or without SkipRemoteCheck), " +
+		"kept for the case or built fresh for every overlap, two tokens A and B (7 / 6 pair kinds: forged by the peer client vs the peer's genuine token made with the same key, unpublished key under a published kid vs the genuine token of that kid, genuine/genuine, algorithm outside the allow-list vs genuine, random manipulated tokens) " +
+		"presented A, B, A in sequence and then overlapping: A parked at EVERY one of its yield points (library spans, vstore storage calls, the harness' key set / subject check / claims decoder callbacks; internal/sched) while B runs to completion, roles swapped afterwards; every call is one evaluation judged on its own; " +
 		"oidc.FindMatchingKey is enumerated completely over all key sets of <=3 keys x kid in {none,a,b} x use in {sig,enc,none} x {RSA,EC P-256,EC P-384,Ed25519} x 4 token kids x 9 algorithms and sampled for 4-5 keys")
 	run.Assume("acceptance is judged by provenance (the harness' ledger of what it signed), never by string equality with what was serialised",
 		"per-client keys (JWT assertion, request object) are selected by the storage by exact key ID; a client key registered with use=enc is grey there",
@@ -770,6 +833,10 @@ func main() {
 		"remote key set under endpoint faults (part F): the key set may go on trusting the document of its last successful download until another download succeeds; a failed download adds no trust; "+
 			"a genuine token of a currently published key must be accepted when the endpoint answers the next download properly, whatever failed before; refusing while the endpoint fails is grey. "+
 			"Between presentations the case waits (goroutine dump) until the download goroutine the key set started for it has ended, so 'stored' is exact; a wait that never ends is inconclusive",
+		"JWKS entries no verifier can use for a signature (undecodable, of a key-agreement / unknown / symmetric type, not even an object) are not keys of the configured key set as far as signatures go: "+
+			"the trust set is the other entries of the document, all of them, wherever they stand - both for 'ambiguity must be reported' and for 'a genuine token with a unique eligible key must be accepted' (RFC 7517 section 5: such entries are to be ignored; the library documents the same intent)",
+		"overlapping calls on one verifier object (part O): what another call on the same object does meanwhile changes nothing - each call is judged exactly as a sequential presentation of its token; "+
+			"the interleavings are forced at yield points (no sleeps); a running call that cannot finish while the other is parked is inconclusive",
 		"a payload of JSON null is C09's subject and is not generated here")
 	var mand []string
 	for v, n := range verifierNames {
@@ -796,14 +863,24 @@ func main() {
 	for _, k := range faultKinds {
 		mand = append(mand, "faults:kind:"+k)
 	}
+	mand = append(mand, noiseMandatory()...)
+	mand = append(mand, overlapMandatory()...)
 	mand = append(mand, "FindMatchingKey:enumeration-complete", "FindMatchingKey:ambiguity-seen", "FindMatchingKey:exact-seen", "FindMatchingKey:unique-kidless-seen")
 	run.Mandatory(mand...)
 	initPool()
+	probeNoise(run)
 
 	n := run.N(6000, 60000)
 	if rc := run.ReplayCase(); rc >= 0 {
 		for _, m := range mand { // a single replayed case cannot observe every scenario
 			run.Observed(m)
+		}
+		if rc >= overlapBase {
+			sched.Install()
+			runOverlap(run, newWorker(), int(rc-overlapBase))
+			run.Distinct("replay-a")
+			run.Distinct("replay-b")
+			run.Finish()
 		}
 		if rc >= faultBase {
 			runFaults(run, int(rc-faultBase))
@@ -842,6 +919,16 @@ func main() {
 			run.HarnessBug(fmt.Sprintf("rotation case %d: panic outside a monitored library call: %s at %s", j, pi.Value, pi.Frame))
 		}
 	})
+	to := time.Now()
+	sched.Install()
+	ev.Parallel(overlapCount(run), 0, func(wk int, j int) {
+		if workers[wk] == nil {
+			workers[wk] = newWorker()
+		}
+		if pi := mon.Catch(func() { runOverlap(run, workers[wk], j) }); pi != nil {
+			run.HarnessBug(fmt.Sprintf("overlap case %d: panic outside a monitored library call: %s at %s", j, pi.Value, pi.Frame))
+		}
+	})
 	tf := time.Now()
 	if probeDownloadGoroutine(run) {
 		ev.Parallel(faultCount(run), 0, func(_ int, j int) {
@@ -853,6 +940,6 @@ func main() {
 	t1 := time.Now()
 	runFindKey(run)
 	run.Extra("fault_histories_goroutine_dumps", map[string]float64{"dumps": float64(dumpN), "seconds": float64(dumpNs) / 1e9})
-	run.Extra("phase_wall_s", map[string]float64{"verifiers+rotation": tf.Sub(t0).Seconds(), "fault-histories": t1.Sub(tf).Seconds(), "FindMatchingKey": time.Since(t1).Seconds()})
+	run.Extra("phase_wall_s", map[string]float64{"verifiers+rotation": to.Sub(t0).Seconds(), "overlapping-calls": tf.Sub(to).Seconds(), "fault-histories": t1.Sub(tf).Seconds(), "FindMatchingKey": time.Since(t1).Seconds()})
 	run.Finish()
 }
